@@ -563,6 +563,21 @@ def run(rep, tier):
     eventless_by_type_bit(rep, 'R12.9')
     # ---- R12.10 names derived from event names for the VHDL back-end
     vhdl_names(rep, 'R12.10')
+    # ---- R12.12 what is ignored at the end of a descriptor: `.*` or `.`, not a bare `*` and not both in a row
+    rep.rule('R12.12', 'a descriptor matches only for the reasons the recommendation gives: the normalisation in front of the comparison drops a trailing `.*` or a trailing `.`; a `*` that does not follow a `.` (and is not the whole descriptor) is part of the name ("foo*" does not match "foo"), and "." or ".*" alone are not the wildcard')
+    nm12 = fb.fn('uscxml::nameMatch')
+    strips = []
+    for n in nm12.walk():
+        if n['k'] != 'IfStmt' or n['c'][1] is None:
+            continue
+        lits = [y.get('str') for y in sub(n['c'][0]) if y['k'] == 'StringLiteral']
+        shortens = any(y.get('callee', {}).get('q', '').split('::')[-1] in ('substr', 'erase', 'pop_back', 'resize') for y in sub(n['c'][1]))
+        if shortens and lits and set(lits) <= {'*', '.', '.*'}:
+            strips.append((n, lits))
+    rep.minimum('R12.12', len(strips), 1, 'descriptor-shortening steps in nameMatch')
+    bare_star = [n for n, lits in strips if lits == ['*']]
+    rep.check(not bare_star, 'R12.12', 'nameMatch|trailing star', locstr(bare_star[0]) if bare_star else nm12.where(), 'a trailing `*` %s' % (
+        'is dropped only as part of `.*`' if not bare_star else 'is dropped whatever precedes it, and a trailing `.` after that: nameMatch("foo*", "foo"), (".", "foo") and (".*", "foo") are true; the Promela and VHDL resolution copy the same normalisation'))
     # ---- R12.11 names derived from event names for the Promela back-end (C06 R06.7)
     rep.rule('R12.11', 'statically resolved matches keep event names apart in the Promela model too: the macro names the analyzer allocates are unique and stay identifiers (events that differ in case only must not end up with the code of one another)')
     from . import C06
